@@ -66,6 +66,7 @@ type cnVec struct {
 	Window  string    `json:"window"`
 	Entries []cnEntry `json:"entries"`
 	Cands   []cnCand  `json:"cands"`
+	Clock   *cnClock  `json:"clock,omitempty"`
 	Expect  struct {
 		WellFormed  bool   `json:"wellformed"`
 		ReadBack    string `json:"readback"`
@@ -730,6 +731,7 @@ func init() {
 		inst := fs.Int("instances", 2, "concrete instances per vector")
 		cliEvery := fs.Int("cli-every", 1, "run the file-based CLI path on every n-th vector's first instance")
 		work := fs.String("work", "", "scratch directory")
+		clockStep := fs.Duration("clock-step", 2*time.Second, "real duration of one tick of the clock family (multiple of 2 s)")
 		_ = fs.Parse(args)
 		res := &Result{}
 		defer func() { res.write(*out) }()
@@ -785,6 +787,14 @@ func init() {
 			pool.AddCert(ca.Certificate)
 			env.cas, env.pools, env.caFiles = append(env.cas, ca), append(env.pools, pool), append(env.caFiles, [2]string{cf, kf})
 		}
+		// the time line first, while the machine is otherwise idle
+		var clockVecs []*cnVec
+		for i := range vecs {
+			if vecs[i].Fam == "clock" {
+				clockVecs = append(clockVecs, &vecs[i])
+			}
+		}
+		runCertsClock(env, clockVecs, *clockStep)
 		workers := runtime.NumCPU()
 		dirs := make(chan string, workers)
 		for k := 0; k < workers; k++ {
@@ -794,6 +804,9 @@ func init() {
 		}
 		parallel(len(vecs), workers, func(vi int) {
 			v := &vecs[vi]
+			if v.Fam == "clock" {
+				return
+			}
 			for k := 0; k < env.instK; k++ {
 				if v.Fam == "decode" {
 					f, rep := guardDecode(env, v, vi, k)
@@ -842,8 +855,8 @@ func init() {
 			res.count("vectors_" + v.Fam)
 		})
 		res.mu.Lock()
-		res.Evaluations = res.Counters["instances"] + res.Counters["decode_calls"]
-		res.Distinct = env.ndist + res.Counters["vectors_decode"]
+		res.Evaluations = res.Counters["instances"] + res.Counters["decode_calls"] + res.Counters["vectors_clock"]
+		res.Distinct = env.ndist + res.Counters["vectors_decode"] + res.Counters["vectors_clock"]
 		res.mu.Unlock()
 	}
 }
